@@ -13,7 +13,7 @@ add("C12", "checks/c11_c12_status.c", ["default-asan", "c89-plain", "custreg-pla
     "asserted. distinct_nontrivial = distinct (registers, count) states + a 1/97 subsample of swept codes",
     cflags=["-DCHECK_C12"],
     exhaustive=dict(quick=True, thorough=True),
-    rule_more="same run as C11; user-group summary in the parent register; flavour optmin (minimal error list)",
+    rule_more="same run as C11; user-group summary in the parent register; flavour optmin (minimal error list); every fifth walk with a service-request handler that reads the error queue or masks the request (newest entry of a push must be classified)",
     technique="runtime monitors (classification table by arithmetic, latch/hold transition relation, callback trace) over an exhaustive code sweep "
               "and an explicit-state breadth-first exploration of the real library plus random walks",
     level_text="exploration by execution: all 65536 error codes; every transition of the bounded state spaces of C11 with the callback observed "
